@@ -7,6 +7,7 @@ import (
 	"fmt"
 	"regexp"
 	"strings"
+	"sync"
 
 	"dawgsverif/internal/tr"
 
@@ -197,6 +198,67 @@ func Gate(args []string) {
 			}
 			gateOne(c.Text+" skip $p", true, "corpus+$param")
 		}
+	}
+	// context schedules: the property is about every default context, not only one that parses straight after it was
+	// made.  (a) several default contexts alive, the oldest one parses; (b) contexts made and used concurrently.
+	var forbidden, allowed []string
+	for _, s := range tr.ReadLines[Skeleton](*in) {
+		if text := render(s); parseWith(frontend.NewContext(), text).ok {
+			if s.Forbidden && len(forbidden) < 60 {
+				forbidden = append(forbidden, text)
+			} else if !s.Forbidden && len(allowed) < 20 {
+				allowed = append(allowed, text)
+			}
+		}
+	}
+	forbidden = append(forbidden, "match (n) detach delete n", "match (n) where n.name = $name return n", "match (n) set n.x = 1 return n",
+		"create (n:K) return n", "merge (n:K) return n", "match (n) remove n.x return n", "call db.labels()", "match (n) return n skip $p")
+	hid = 2000000
+	sched := func(text string, isForbidden bool, mode string, def parseOut) {
+		ctl := parseWith(frontend.NewContext(), text)
+		w.Emit(map[string]any{"e": "gate", "hid": hid, "text": text, "forbidden": isForbidden, "model_accepts": !isForbidden, "control_ok": ctl.ok,
+			"default_ok": def.ok, "panic": ctl.panicky || def.panicky, "err": def.err, "translated": false, "dml": false, "kinds": []string{"ctx:" + mode}})
+		hid++
+	}
+	for _, text := range forbidden {
+		oldest := frontend.DefaultCypherContext()
+		for i := 0; i < 3; i++ {
+			_ = frontend.DefaultCypherContext()
+		}
+		sched(text, true, "oldest-of-4", parseWith(oldest, text))
+		a, b := frontend.DefaultCypherContext(), frontend.DefaultCypherContext()
+		parseWith(b, "match (n) return n")
+		sched(text, true, "older-after-newer-parsed", parseWith(a, text))
+	}
+	type res struct {
+		text string
+		forb bool
+		out  parseOut
+	}
+	results := make(chan res, 4096)
+	var wg sync.WaitGroup
+	for g := 0; g < 8; g++ {
+		wg.Add(1)
+		go func(g int) {
+			defer wg.Done()
+			for round := 0; round < 6; round++ {
+				for i, text := range forbidden {
+					if (i+g+round)%4 == 0 {
+						results <- res{text, true, parseWith(frontend.DefaultCypherContext(), text)}
+					}
+				}
+				for i, text := range allowed {
+					if (i+g+round)%4 == 0 {
+						results <- res{text, false, parseWith(frontend.DefaultCypherContext(), text)}
+					}
+				}
+			}
+		}(g)
+	}
+	wg.Wait()
+	close(results)
+	for r := range results {
+		sched(r.text, r.forb, "concurrent", r.out)
 	}
 	w.Close()
 	fmt.Printf("{\"events\":%d}\n", w.N)
